@@ -67,6 +67,8 @@ struct Case {
 }
 fn gen(rng: &mut Rng, case: u64) -> Case {
     let mut h = Vec::new();
+    let sp = rng.moderate(1e4);
+    let mut last = sp;
     let target = 2 + rng.usize(63);
     let mut t = rng.range_i64(-1_000_000_000_000_000, 1_000_000_000_000_000);
     let const_dt = if case % 3 == 0 { Some(rng.step_ns(1_000, 36_000_000_000_000)) } else { None };
@@ -74,7 +76,10 @@ fn gen(rng: &mut Rng, case: u64) -> Case {
         let run = match rng.below(5) { 0 => 1, 1 => 2, 2 => 3, 3 => 4 + rng.usize(6), _ => 10 + rng.usize(30) };
         for _ in 0..run {
             t += const_dt.unwrap_or_else(|| rng.step_ns(1_000, 36_000_000_000_000));
-            h.push(Ev::Some(t, rng.moderate(1e4)));
+            // strata: fresh value, the previous value again (error unchanged, D = 0), exactly the setpoint (e = 0)
+            let v = match rng.below(12) { 0 => last, 1 => sp, _ => rng.moderate(1e4) };
+            last = v;
+            h.push(Ev::Some(t, v));
         }
         for _ in 0..1 + rng.usize(2) {
             t += rng.step_ns(1_000, 36_000_000_000_000);
@@ -82,7 +87,7 @@ fn gen(rng: &mut Rng, case: u64) -> Case {
         }
     }
     h.truncate(target.min(64));
-    Case { sp: rng.moderate(1e4), kp: rng.moderate(1e4), ki: rng.moderate(1e4), kd: rng.moderate(1e4), h }
+    Case { sp, kp: rng.moderate(1e4), ki: rng.moderate(1e4), kd: rng.moderate(1e4), h }
 }
 fn run_real(c: &Case, shift: i64, scale: f32) -> Vec<Out<f32>> {
     let src = Src::<f32>::new();
